@@ -162,7 +162,10 @@ def findings_of(r, expect, cfg_lines):
             _, nm, rcs, ers = l.split(" ")
             code = 0 if rcs == "rc=0" else ERRNO.get(ers.split("=")[1], -1)
             exp = expect["reject"].get(nm)
-            if nm == "wrong-offset":
+            m2 = re.match(r"(version|hlen|address|length|abi)-(bit\d+|value0x[0-9a-f]+)$", nm)
+            if m2:      # systematic corruption of the stored header / ABI: the model (adopt_rejects) says EINVAL for every one
+                out.append(("adopt-accepts-corrupted:" + m2.group(1), "adoption of a file whose stored %s is corrupted (%s) is not refused with EINVAL: %s" % (m2.group(1), m2.group(2), l), False))
+            elif nm == "wrong-offset":
                 if code == 0:
                     out.append(("adopt-accepts:wrong-offset", "adoption at another file offset succeeds: " + l, False))
                 elif code != 22:
@@ -244,6 +247,7 @@ def check(run, replay=None):
                   kind=kind + (":adopted" if adopted else ":not-adopted"))
         run.bump("calls-on-adopted", sum(1 for l in r["lines"] if l.startswith("call ")))
         run.bump("rejected-adoptions", sum(1 for l in r["lines"] if l.startswith("reject ")))
+        run.bump("corrupted-header-adoptions", sum(int(re.search(r"tried=(\d+)", l).group(1)) for l in r["lines"] if l.startswith("rejectsweep ")))
         fs = findings_of(r, expect, ls)
         if adopted and not fs:
             run.cov["traces_validated_against_impl"] += 1
